@@ -521,5 +521,6 @@ CLAUSES = [
            'stoichiometry. Non-trivial = adsorption + TS reaction + gas reaction on >= 2 sites, or >= 2 run conditions',
            quick_shards=6),
 ]
+FUZZ = [('C06.mech', 2500, 4)]
 ASSUMPTIONS = ['printed numbers are compared as strings produced with the writer\'s own float format from the model\'s getters (C09 judges the getters)',
                'files are parsed by their keywords and slashes, never by comment lines or blank-line layout']
